@@ -576,14 +576,14 @@ func (x *Exec) applyContract(ct *FuncContract, fn *types.Func, recv *Val, args [
 	pre := st.Snapshot()
 	// preconditions
 	envPre := x.calleeEnv(fn, ct, recv, args, nil, st, pre)
-	for _, cl := range ct.ClausesOf("requires") {
+	for ri, cl := range ct.ClausesOf("requires") {
 		if strings.HasPrefix(cl.Label, "spawn") {
 			continue
 		}
 		g := x.cevalBool(cl.Expr, envPre, cl)
 		lab := cl.Label
 		if lab == "" {
-			lab = fmt.Sprintf("pre%d", cl.Line)
+			lab = fmt.Sprintf("pre%d", ri+1)
 		}
 		x.oblige(st, x.top.Key+".call:"+ct.Key+"."+lab, "call-pre", pos, cl.Src, g)
 		st.Assume(g)
